@@ -103,6 +103,8 @@ def handle (op : String) (a : List String) : Option String :=
     | some req, some toks => some s!"ok req={hxv req} toks={Drive.C04.hxList toks}"
     | _, _ => none
   -- histories and schedules of pure functions: the model is a function, so the answer is the one it gives alone
+  -- the blinding primitive refused the blind (oracle column of the stream): no request may come out
+  | "c11.t2refuse", _ => some "err-create"
   | "c11.hist", _ => some "same"
   | "c11.par", _ => some "same"
   | _, _ => none
